@@ -3,7 +3,7 @@ from __future__ import print_function
 import re
 import logging
 
-from .util import (Source, print_dump, get_marked_atribute, split_pkg,
+from .util import (Source, print_dump, get_marked_atribute, split_pkg, SOURCE_MARK,
                    get_marked_name, get_marked_import, get_all_usages, join_pkg)
 from .evaluator import EvalCtx
 from .nast import extract_scope
@@ -94,12 +94,21 @@ def location(project, source, position, filename=None, debug=False):
         if node:
             result = ctx.declarations(node, [])
 
+    def name_loc(name):
+        loc = name.declared_at
+        # names of the marked source declared on the cursor line after the
+        # cursor are shifted by the mark
+        if (name.filename == source.filename and loc[0] == position[0]
+                and loc[1] > position[1]):
+            loc = loc[0], loc[1] - len(SOURCE_MARK)
+        return _loc(loc, name.filename)
+
     locs = []
     for r in result:
         if isinstance(r, list):
-            locs.append([_loc(n.declared_at, n.filename) for n in r])
+            locs.append([name_loc(n) for n in r])
         else:
-            locs.append(_loc(r.declared_at, r.filename))
+            locs.append(name_loc(r))
 
     return locs
 
